@@ -492,6 +492,13 @@ func main() {
 				continue
 			}
 			ws := strings.Fields(l)
+			if mode == "conc" && len(ws) >= 2 && ws[0] == "lin" {
+				// a recorded history: the driver judges the recording again (a schedule cannot be
+				// forced), and the scenario that produced it is repeated
+				o.Case(l, "-")
+				concReplay(cfg, o, []string{"lin", "@iters=2000"})
+				continue
+			}
 			if len(ws) < 2 || ws[0] != mode {
 				continue
 			}
